@@ -376,8 +376,10 @@ fn pick_distinct<'a>(rng: &mut Rng, from: &[&'a str], n: usize) -> Vec<&'a str> 
 	v
 }
 
-pub const FAMILIES: [&str; 28] = [
+pub const FAMILIES: [&str; 30] = [
 	"native",
+	"call-errors",
+	"type-error-on-container",
 	"standalone-super",
 	"obj-consumers",
 	"import-assert",
@@ -840,6 +842,36 @@ pub fn gen_family(rng: &mut Rng, family: &str) -> Prog {
 				format!("local o = {{ b: {}, a: std.trace('ta', 10) }}; [o, o.a]", parts.join(" + ")),
 			)
 		}
+		"call-errors" => {
+			// several things wrong with one call: which one is reported must be stable
+			let variant = rng.below(8);
+			let code = match variant {
+				0 => "local connect(host, port, user, password, timeout=30) = 1; connect(timeout=5)",
+				1 => "local f(foo1, foo2, foo3, bar1=1) = 1; f(bar1=2)",
+				2 => "local f(a, b, c) = 1; f(1, zz1=1, zz2=2)",
+				3 => "local f(a, b) = 1; f(1, 2, 3, 4)",
+				4 => "local f(aa, ab, ba) = 1; f(ab=1)",
+				5 => "std.substr(len=1)",
+				6 => "std.foldl(init=0)",
+				_ => "local f(k1, k2, k10, K) = 1; { a: f(), b: f(k2=1) }",
+			};
+			Prog::new(family, code.to_owned()).err("Other").order()
+		}
+		"type-error-on-container" => {
+			// a type error about a container, memoised in a place reachable from that container
+			let variant = rng.below(8);
+			let code = match variant {
+				0 => "{ a: 1, b: if self then 1 else 2 }",
+				1 => "local o = { a: 1 }, r = std.length(std.substr(o, 0, 1)); r",
+				2 => "local arr = [1, if arr then 1 else 2]; arr[1]",
+				3 => "local f(x) = x, r = if f then 1 else 2; r",
+				4 => "local o = { a: 1, b: std.join(self, ['x']) }; [o.a, o.b]",
+				5 => "local o = { f(x): x, g: std.length(std.char(self.f)) }; o.g",
+				6 => "local arr = [0, std.repeat('x', arr)]; arr[1]",
+				_ => "local o = { n: 1, m: 'a' + std.codepoint(self) }; o",
+			};
+			Prog::new(family, code.to_owned()).cyc()
+		}
 		"standalone-super" => {
 			let x = rng.range(1, 9) as i64;
 			let variant = rng.below(4);
@@ -978,6 +1010,8 @@ pub fn gen_order_sensitive(rng: &mut Rng) -> Prog {
 		"obj-consumers",
 		"standalone-super",
 		"import-assert",
+		"call-errors",
+		"call-errors",
 	];
 	let f = *rng.pick(&fams);
 	gen_family(rng, f)
